@@ -243,7 +243,7 @@ package client
 //@ pred lockedPlus(o []channel.SubAlloc, n []channel.SubAlloc, id channel.ID, st *channel.State, m []channel.Index) =
 //@   len(n) == len(o) + 1 && (forall k int :: 0 <= k && k < len(o) ==> subAllocEq(n[k], o[k])) &&
 //@   n[len(o)].ID == id && idxMapEq(n[len(o)].IndexMap, m) && len(n[len(o)].Bals) == len(st.Balances) &&
-//@   forall a int :: 0 <= a && a < len(st.Balances) ==> val(n[len(o)].Bals[a]) == allocSum(st.Allocation, a)
+//@   forall a int :: 0 <= a && a < len(st.Balances) ==> val(n[len(o)].Bals[a]) == asum(st.Allocation, a)
 
 // movedBy(cur, new, virt, m, sign): every parent participant's balance changes by sign times the balance of the virtual
 // channel participant mapped to it (last position wins when several map to the same parent index; none: unchanged).
@@ -294,7 +294,7 @@ package client
 //@   lockedHas(chanState(parent).Locked, prop.Final.Params.id) &&
 //@   forall i int :: firstFor(chanState(parent).Locked, prop.Final.Params.id, i) ==>
 //@     len(chanState(parent).Locked[i].Bals) == len(prop.Final.State.Balances) &&
-//@     (forall a int :: 0 <= a && a < len(prop.Final.State.Balances) ==> val(chanState(parent).Locked[i].Bals[a]) == allocSum(prop.Final.State.Allocation, a)) &&
+//@     (forall a int :: 0 <= a && a < len(prop.Final.State.Balances) ==> val(chanState(parent).Locked[i].Bals[a]) == asum(prop.Final.State.Allocation, a)) &&
 //@     movedBy(chanState(parent).Balances, prop.State.Balances, prop.Final.State.Balances, chanState(parent).Locked[i].IndexMap, 1) &&
 //@     lockedMinus(chanState(parent).Locked, prop.State.Locked, i)
 
@@ -320,7 +320,7 @@ package client
 //@ pred subFundOK(c *Channel, id channel.ID, bals channel.Balances, n *channel.State) =
 //@   !lockedHas(chanState(c).Locked, id) && lockedHas(n.Locked, id) && balancesMoved(chanState(c).Balances, n.Balances, bals, 0) &&
 //@   forall i int :: firstFor(n.Locked, id, i) ==> len(n.Locked[i].Bals) == len(bals) && len(n.Locked[i].IndexMap) == 0 &&
-//@     (forall a int :: 0 <= a && a < len(bals) ==> val(n.Locked[i].Bals[a]) == balSum(bals[a])) && lockedMinus(n.Locked, chanState(c).Locked, i)
+//@     (forall a int :: 0 <= a && a < len(bals) ==> val(n.Locked[i].Bals[a]) == bsum(bals[a])) && lockedMinus(n.Locked, chanState(c).Locked, i)
 
 // (the free variables of a closure are references to the captured variables: *c, *id, *bals)
 //@ func (*Channel).registerSubChannelFunding$1
@@ -656,7 +656,7 @@ package client
 //@   ensures len(state.Locked) == old(len(state.Locked)) + 1 && (forall k int :: 0 <= k && k < old(len(state.Locked)) ==> subAllocEq(state.Locked[k], old(state.Locked[k]))) &&
 //@           state.Locked[old(len(state.Locked))].ID == *id && len(state.Locked[old(len(state.Locked))].IndexMap) == 0 &&
 //@           len(state.Locked[old(len(state.Locked))].Bals) == len((*alloc).Balances) &&
-//@           forall a int :: 0 <= a && a < len((*alloc).Balances) ==> val(state.Locked[old(len(state.Locked))].Bals[a]) == balSum((*alloc).Balances[a])
+//@           forall a int :: 0 <= a && a < len((*alloc).Balances) ==> val(state.Locked[old(len(state.Locked))].Bals[a]) == bsum((*alloc).Balances[a])
 
 // fundChannel: a ledger channel is funded with exactly the proposal's funding agreement (not, e.g., its initial balances); sub- and
 // virtual channels are funded through their parent with exactly this proposal and channel.
